@@ -66,7 +66,9 @@ lemma instances each with its side condition solver-proved), kernel loop on symb
 `ThermalProperties` wrapper over pretend_real × band_indices × classical × cutoff × lang with symbolic frequencies and
 T, and the Float64 finiteness query decided by the cvc5 binary — for the C kernels *and* for `mode_S/mode_cv`
 (executed in an FP twin of E2).  Found defect F5 and, new, the cutoff not being applied to the zero-point energy on
-the C path.  Quick ≈ 2 min."""
+the C path.  Added later: **projection** — `ThermalProperties(is_projection=True)` on symbolic complex eigenvectors
+for band selections none / all / proper subset: projected F, S, C_V of component i = Σ_q w Σ_bands |e_i|²·(mode value)/Σw
+for all eigenvector entries; this found the complex→double cast and the mis-sized accumulator (§5).  Quick ≈ 2 min."""
 AS["C11"] = """**As built** (`checks/c11.py`).  formulas / weight / tables / grid as in the docstring.  The **tables**
 unit's first oracle was wrong (§6): the 24 tetrahedra around a grid point do not tile (−1,1)³; for each main diagonal
 they are the four translates of six tetrahedra that tile the unit microcell, which is what is now proved with LRA
